@@ -437,9 +437,71 @@ func (rn *runner) replayOne(b Behaviour, idx int) {
 		}
 		pre = bh[si]
 	}
+	rn.recoverCheck(w, ad, in, bh, ver, cfgKey, rawf)
 	if idx < 3 {
 		res.Sample(map[string]any{"behaviour": rawf(), "observations": trace})
 	}
+}
+
+// recoverCheck is the CertifiedRecoverable clause at the end of a behaviour that the real object reports
+// certified and in which the dealer was honest towards the observer: every T-subset (all of them for n <= 5,
+// 24 seeded ones above) of the decrypted deals of the verifiers whose approval the observer holds must give the
+// dealer's secret through the variant's own exported RecoverSecret(suite, deals, n, t).
+func (rn *runner) recoverCheck(w *World, ad Adapter, in *Step, bh []*Step, ver VerifierH, cfgKey string, rawf func() json.RawMessage) {
+	last := bh[len(bh)-1]
+	var agg Agg = w.Dealer
+	if in.Role == "verifier" {
+		agg = ver
+		if last.Own != "good" {
+			return
+		}
+	}
+	if !last.Sound || boolStr(agg.DealCertified) != "true" {
+		return
+	}
+	var idxs []int
+	deals := map[int]*PDeal{}
+	for i := 0; i < in.N; i++ {
+		if last.Truth[strconv.Itoa(i)] != "app" {
+			continue
+		}
+		d := w.Honest[i] // what verifier i decrypts from the honest dealer's deal
+		if in.Role == "verifier" && i == in.Me {
+			d = ver.Deal()
+		}
+		if d == nil {
+			rn.res.Violate(cfgKey+"/recover/deal-nil", "certified verifier returns no deal", map[string]any{"behaviour": rawf(), "variant": in.Variant, "n": in.N, "t": in.T})
+			return
+		}
+		idxs = append(idxs, i)
+		deals[i] = d
+	}
+	if len(idxs) < in.T {
+		return
+	}
+	var subs [][]int
+	subsets(idxs, in.T, func(s []int) bool { subs = append(subs, s); return true })
+	if in.N > 5 && len(subs) > 24 {
+		r := core.Rng(rn.cfg.Seed, "recover", string(rawf()))
+		r.Shuffle(len(subs), func(i, j int) { subs[i], subs[j] = subs[j], subs[i] })
+		subs = subs[:24]
+	}
+	for _, sub := range subs {
+		ds := make([]*PDeal, len(sub))
+		for k, i := range sub {
+			ds[k] = deals[i].Clone()
+		}
+		got, err := ad.RecoverSecret(w.S, ds, uint32(in.N), uint32(in.T))
+		rn.res.Eval("")
+		if err != nil || !got.Equal(w.Secret) {
+			what := fmt.Sprintf("RecoverSecret(n=%d, t=%d) on %d decrypted deals of approving verifiers: err=%v, equals the dealer's secret: %v",
+				in.N, in.T, len(sub), err, err == nil && got.Equal(w.Secret))
+			rn.res.Violate(cfgKey+"/recover/wrong-secret", what, map[string]any{"behaviour": rawf(), "variant": in.Variant, "role": in.Role,
+				"n": in.N, "t": in.T, "subset_size": len(sub), "why": what})
+			return
+		}
+	}
+	rn.res.AddExtra("recovered_subsets", len(subs))
 }
 
 func initialPre(in *Step) *Step {
